@@ -18,8 +18,7 @@
 //	PANIC (history ends).
 //
 // The real generator.ParameterPool runs with a real Scheduler; generateFn and the Persistence
-// are the harness's (the faults live there). A second family `store …` drives the real
-// preParamsStorage of pkg/tecdsa/dkg over an in-memory handle (see store.go).
+// are the harness's (the faults live there).
 package main
 
 import (
@@ -389,8 +388,6 @@ func exec(op string) (string, string) {
 	switch {
 	case len(f) == 3 && f[0] == "pool":
 		return execPool(f)
-	case len(f) >= 2 && f[0] == "store":
-		return execStore(f)
 	}
 	return "bad-op", "bad"
 }
@@ -400,10 +397,6 @@ var stepKinds = []string{"g", "g", "g", "g", "gf", "gf", "gw", "gn", "gc", "t", 
 func gen(r *hx.Rng, n int, tier string) []string {
 	var ops []string
 	for i := 0; i < n; i++ {
-		if i%10 == 9 {
-			ops = append(ops, genStore(r))
-			continue
-		}
 		size := r.Range(1, 4)
 		if r.Chance(1, 12) {
 			size = 0
